@@ -142,8 +142,15 @@ class MergeExec(Exec):
                 k += 1
         self.check_view(self.table, "new")
 
-    def op_merge(self, rects, as_list):
-        ranges = [rng(*r) for r in rects]
+    def op_merge(self, rects, as_list, corners=0):
+        """corners: which two opposite corners name each rectangle - 0 top-left:bottom-right, 1 top-right:bottom-left,
+        2 bottom-left:top-right, 3 bottom-right:top-left (all four are A1 spellings of the same rectangle)"""
+        def spell(r0, c0, r1, c1):
+            return [rng(r0, c0, r1, c1), rng(r0, c1, r1, c0), rng(r1, c0, r0, c1), rng(r1, c1, r0, c0)][corners % 4]
+
+        ranges = [spell(*r) for r in rects]
+        if corners % 4 and any(r[0] != r[2] or r[1] != r[3] for r in rects):
+            self.flags.add("range_named_by_other_corners")
         if as_list:
             self.table.merge_cells(ranges)
         else:
@@ -344,7 +351,11 @@ def make_machine(ctx):
             rows, cols = len(self.ex.grid), len(self.ex.grid[0])
             rects = data.draw(disjoint_rects(rows, cols, list(self.ex.rects)))
             if rects:
-                self.step("merge", rects=rects, as_list=as_list)
+                corners = data.draw(st.sampled_from([0, 0, 0, 0, 1, 2, 3]))
+                if corners:
+                    self.step("merge", rects=rects, as_list=as_list, corners=corners)
+                else:
+                    self.step("merge", rects=rects, as_list=as_list)
 
         @rule(data=st.data(), v=gens.simple_values)
         def write(self, data, v):
